@@ -45,7 +45,15 @@ var (
 	outPath  string
 	verifDir = "/verif"
 	repoDir  = "/repo"
+	replayBase string // directory that holds replays/<ID>/ (default verifDir/replays)
 )
+
+func replayDir() string {
+	if replayBase != "" {
+		return filepath.Join(replayBase, property)
+	}
+	return filepath.Join(verifDir, "replays", property)
+}
 
 func envInt(name string, def int) int {
 	if v := os.Getenv(name); v != "" {
@@ -111,6 +119,7 @@ func Main(m *testing.M, prop string) {
 	if v := os.Getenv("VERIF_REPO"); v != "" {
 		repoDir = v
 	}
+	replayBase = os.Getenv("VERIF_REPLAY_DIR")
 	flag.Parse()
 	_ = flag.Set("rapid.nofailfile", "true")
 	_ = flag.Set("rapid.shrinktime", "20s")
@@ -366,7 +375,7 @@ func WriteReplay(c *Case, err error) string {
 	}
 	cc.Seed = seed
 	cc.Tier = tier
-	dir := filepath.Join(verifDir, "replays", property)
+	dir := replayDir()
 	_ = os.MkdirAll(dir, 0o755)
 	// One file per (check, shard): rapid re-executes the property while
 	// shrinking, so the last write is the minimal case.
@@ -444,8 +453,8 @@ func IsKnown(id string) bool {
 // print a KNOWN-FINDING line; "fixed" entries and plain regression inputs
 // (files under known/<ID>/ not listed) must pass.
 func RunKnown(t *testing.T) {
-	if shard != 0 {
-		return
+	if shard != 0 || os.Getenv("VERIF_NOKNOWN") != "" {
+		return // VERIF_NOKNOWN: sensitivity experiments that must rely on the generated search alone
 	}
 	listed := map[string]bool{}
 	for _, k := range knownAll {
@@ -715,7 +724,7 @@ func beginCase(c *Case) {
 	if saveCurrent {
 		// the race detector halts the process on the first report: keep the
 		// running case on disk so that the driver can name it
-		dir := filepath.Join(verifDir, "replays", property)
+		dir := replayDir()
 		_ = os.MkdirAll(dir, 0o755)
 		data, _ := json.Marshal(c)
 		_ = os.WriteFile(filepath.Join(dir, fmt.Sprintf("current-%d.json", shard)), data, 0o644)
@@ -724,7 +733,7 @@ func beginCase(c *Case) {
 func endCase() {
 	curCase.Store(nil)
 	if saveCurrent {
-		_ = os.Remove(filepath.Join(verifDir, "replays", property, fmt.Sprintf("current-%d.json", shard)))
+		_ = os.Remove(filepath.Join(replayDir(), fmt.Sprintf("current-%d.json", shard)))
 	}
 }
 
@@ -744,7 +753,7 @@ func startWatchdog() {
 				continue
 			}
 			if time.Since(time.Unix(0, curSince.Load())) > time.Duration(hangSecs)*time.Second {
-				dir := filepath.Join(verifDir, "replays", property)
+				dir := replayDir()
 				_ = os.MkdirAll(dir, 0o755)
 				cc := *c
 				cc.Error = fmt.Sprintf("hang-candidate: case still running after %d s", hangSecs)
